@@ -23,6 +23,7 @@ import (
 	"github.com/scionproto/scion/pkg/private/ctrl/path_mgmt/proto"
 	seg "github.com/scionproto/scion/pkg/segment"
 	"github.com/scionproto/scion/pkg/segment/iface"
+	"github.com/scionproto/scion/pkg/snet"
 	"github.com/scionproto/scion/private/revcache/memrevcache"
 	"github.com/scionproto/scion/private/segment/segfetcher"
 	"github.com/scionproto/scion/private/storage/db"
@@ -97,6 +98,7 @@ func main() {
 	out := flag.String("out", "lookup.ndjson", "trace file")
 	n := flag.Int("n", 60, "number of topologies")
 	per := flag.Int("lookups", 5, "lookups per topology")
+	remote := flag.Int("remote", 0, "topologies of the remote-fetch mode")
 	flag.Parse()
 	w := vt.NewWriter(*out)
 	defer w.Close()
@@ -232,24 +234,7 @@ func main() {
 				now0 := time.Now()
 				paths, err := p.GetPaths(ctx, dst, false)
 				now1 := time.Now()
-				ps := []vt.M{}
-				for _, sp := range paths {
-					md := sp.Metadata()
-					intfs := []vt.M{}
-					exp := 0
-					if md != nil {
-						for _, x := range md.Interfaces {
-							intfs = append(intfs, vt.M{"ia": segs.IAStr(x.IA), "id": int(x.ID)})
-						}
-						d := md.Expiry.Sub(t0)
-						if d > 500*time.Hour {
-							d = 500 * time.Hour
-						}
-						exp = int(d / time.Millisecond)
-					}
-					ps = append(ps, vt.M{"src": sp.Source().String(), "dst": sp.Destination().String(),
-						"intfs": intfs, "exp": exp})
-				}
+				ps := pathsJSON(paths, t0)
 				ev["paths"] = ps
 				ev["err"] = err != nil
 				ev["now0"] = int(now0.Sub(t0) / time.Millisecond)
@@ -272,30 +257,13 @@ func main() {
 					downs = append(downs, s.Segment)
 				}
 			}
-			reqs := []vt.M{}
-			for _, r := range sp.reqs {
-				reqs = append(reqs, vt.M{"t": r.SegType.String(), "src": iaRec(r.Src), "dst": iaRec(r.Dst)})
-			}
-			coreL, asL := []vt.M{}, []vt.M{}
-			for _, ia := range t.Order {
-				asL = append(asL, iaRec(ia))
-				if t.ASes[ia].Core {
-					coreL = append(coreL, iaRec(ia))
-				}
-			}
-			dstCore := dst.IsWildcard() || (t.ASes[dst] != nil && t.ASes[dst].Core)
-			ev["cls"] = fmt.Sprintf("lc=%v,dc=%v,si=%v,wc=%v", b2i(t.ASes[local].Core),
-				b2i(dstCore), b2i(local.ISD() == dst.ISD()), b2i(dst.IsWildcard()))
-			ev["local"] = iaRec(local)
-			ev["localcore"] = t.ASes[local].Core
-			ev["dst"] = iaRec(dst)
-			ev["cores"] = coreL
-			ev["ases"] = asL
-			ev["reqs"] = reqs
+			fillCommon(ev, t, local, dst, sp.reqs, revs)
+			ev["mode"] = "local"
+			ev["rpc1"] = []vt.M{}
+			ev["rpc2"] = []vt.M{}
 			ev["ups"] = segs.SegsJSON(ups, t0)
 			ev["cores_"] = segs.SegsJSON(cores, t0)
 			ev["downs"] = segs.SegsJSON(downs, t0)
-			ev["revs"] = revs
 			caseNo++
 			w.Emit(vt.M{"ev": "reset", "case": caseNo})
 			w.Emit(ev)
@@ -304,6 +272,7 @@ func main() {
 			d.Close()
 		}
 	}
+	runRemote(ctx, w, *remote, *per, &caseNo)
 	fmt.Printf("lookups=%d\n", caseNo)
 }
 
@@ -314,4 +283,50 @@ func b2i(b bool) int {
 		return 1
 	}
 	return 0
+}
+
+func pathsJSON(paths []snet.Path, t0 time.Time) []vt.M {
+	ps := []vt.M{}
+	for _, sp := range paths {
+		md := sp.Metadata()
+		intfs := []vt.M{}
+		exp := 0
+		if md != nil {
+			for _, x := range md.Interfaces {
+				intfs = append(intfs, vt.M{"ia": segs.IAStr(x.IA), "id": int(x.ID)})
+			}
+			d := md.Expiry.Sub(t0)
+			if d > 500*time.Hour {
+				d = 500 * time.Hour
+			}
+			exp = int(d / time.Millisecond)
+		}
+		ps = append(ps, vt.M{"src": sp.Source().String(), "dst": sp.Destination().String(),
+			"intfs": intfs, "exp": exp})
+	}
+	return ps
+}
+
+func fillCommon(ev vt.M, t *segs.Topo, local, dst addr.IA, issued segfetcher.Requests, revs []vt.M) {
+	reqs := []vt.M{}
+	for _, r := range issued {
+		reqs = append(reqs, vt.M{"t": r.SegType.String(), "src": iaRec(r.Src), "dst": iaRec(r.Dst)})
+	}
+	coreL, asL := []vt.M{}, []vt.M{}
+	for _, ia := range t.Order {
+		asL = append(asL, iaRec(ia))
+		if t.ASes[ia].Core {
+			coreL = append(coreL, iaRec(ia))
+		}
+	}
+	dstCore := dst.IsWildcard() || (t.ASes[dst] != nil && t.ASes[dst].Core)
+	ev["cls"] = fmt.Sprintf("lc=%v,dc=%v,si=%v,wc=%v", b2i(t.ASes[local].Core),
+		b2i(dstCore), b2i(local.ISD() == dst.ISD()), b2i(dst.IsWildcard()))
+	ev["local"] = iaRec(local)
+	ev["localcore"] = t.ASes[local].Core
+	ev["dst"] = iaRec(dst)
+	ev["cores"] = coreL
+	ev["ases"] = asL
+	ev["reqs"] = reqs
+	ev["revs"] = revs
 }
